@@ -81,21 +81,24 @@ func (p *ParserSpec) maxMatch() int {
 // Result of executing one trace.
 
 type Result struct {
-	Viol       *Violation     // first violation of the wanted property
-	Others     map[string]int // violations seen for other properties (not reported by this check)
-	Aborted    string         // non-empty: run could not be evaluated further (reason)
-	Obs        []string       // observation per operation
-	ObsTicks   []int64        // tick value after each operation
-	Probes     map[string]int
-	Fired      map[string]int // fault kinds that actually fired
-	Ticks      int64
-	MaxCall    int64 // largest tick count of a single library call
-	MaxCallBud int64 // its budget
-	OpsDone    int
-	States     map[string]bool // abstract states visited
-	Cursors    []int           // input cursor before each op (parser world)
-	SchedHash  uint64          // multi world: hash of the executed schedule (task, site, ticks)
-	NonTrivial bool
+	Viol        *Violation     // first violation of the wanted property
+	Others      map[string]int // violations seen for other properties (not reported by this check)
+	Aborted     string         // non-empty: run could not be evaluated further (reason)
+	Obs         []string       // observation per operation
+	ObsTicks    []int64        // tick value after each operation
+	Probes      map[string]int
+	Fired       map[string]int // fault kinds that actually fired
+	Ticks       int64
+	MaxCall     int64 // largest tick count of a single library call
+	MaxCallBud  int64 // its budget
+	OpsDone     int
+	States      map[string]bool // abstract states visited
+	Cursors     []int           // input cursor before each op (parser world)
+	SchedHash   uint64          // multi world: hash of the executed schedule (task, site, ticks)
+	EndRetained []byte          // parser world: bytes the model says are retained after the last executed op
+	EndCursor   int             // parser world: input cursor after the last executed op
+	EndUnparsed int             // parser world: unparsed bytes after the last executed op (model)
+	NonTrivial  bool
 }
 
 func newResult() *Result {
@@ -271,6 +274,11 @@ func runParserTrace(t *Trace, want string, clk *taskClock, startOp, startCursor 
 	defer func() {
 		res.Ticks = x.clk.ticks
 		res.OpsDone = x.step
+		if x.off >= 0 && x.off <= len(x.S) {
+			res.EndRetained = append([]byte(nil), x.S[x.off:]...)
+		}
+		res.EndCursor = x.cursor
+		res.EndUnparsed = len(x.S) - x.w
 		if r := recover(); r != nil {
 			if _, ok := r.(stopRun); ok {
 				return
